@@ -74,21 +74,21 @@ theorem getElem?_append_length {α : Type} (l : List α) (x : α) (t : List α) 
 
 /-- shared part of `loop`, `loopBody`, `foreach`: register taken, body, loop commands, register released -/
 theorem loopShape_sim {m m1 m2 m4 : Mem} {i : Nat} {b : Bool} {body : Host} {bc : List PCmd}
-    {start stop stp : Int} {H : List (Reg × Bool)} {L : List Nat} {f : Nat}
+    {start stop stp : Int} {H : List (Reg × Bool)} {L MH : List Nat} {f : Nat}
     (h1 : takeReg m = .ok (m1, i)) (h2 : emit (bindHandle m1 (R i) b) body = .ok (m2, bc))
     (h4 : release (buildLoop m2 start stop stp (R i) bc).1 i = .ok m4)
     (hem : emits body = true) (hext : Ext m4.handles H)
     (ih : ∀ (p : List PCmd) (n : Nat) (hs hs1 : HSt) (ts : St), Placed p n bc →
-      Rel H L (m.active.set i true) m.measUsed hs ts →
+      Rel H L MH (m.active.set i true) m.measUsed hs ts →
       hsem f (m.handles.length + 1) m.arrLens.length body hs = some hs1 →
-      ∃ ts1, Runs p n bc.length ts ts1 ∧ Rel H L (m.active.set i true) m.measUsed hs1 ts1)
+      ∃ ts1, Runs p n bc.length ts ts1 ∧ Rel H L MH (m.active.set i true) m.measUsed hs1 ts1)
     {p : List PCmd} {n : Nat} {hs hs1 : HSt} {ts : St}
     (hpl : Placed p n (buildLoop m2 start stop stp (R i) bc).2)
-    (hrel : Rel H L m.active m.measUsed hs ts)
+    (hrel : Rel H L MH m.active m.measUsed hs ts)
     (hit : iterLoop (hsem f (m.handles.length + 1) m.arrLens.length body) m.handles.length stop stp f
       (hs.setH m.handles.length start) = some hs1) :
     ∃ ts', Runs p n (buildLoop m2 start stop stp (R i) bc).2.length ts ts' ∧
-      Rel H L m.active m.measUsed (hs1.clearH m.handles.length) ts' := by
+      Rel H L MH m.active m.measUsed (hs1.clearH m.handles.length) ts' := by
   have st2 := emit_stat _ _ _ _ h2
   have hbc : bc ≠ [] := by
     intro e; have := st2.empty.mp e; rw [hem] at this; cases this
@@ -105,9 +105,9 @@ theorem loopShape_sim {m m1 m2 m4 : Mem} {i : Nat} {b : Bool} {body : Host} {bc 
     rw [s1.2.2.1]
     exact getElem?_append_length _ _ _
   -- entry
-  have hrel0 : Rel H L (m.active.set i true) m.measUsed (hs.setH m.handles.length start)
+  have hrel0 : Rel H L MH (m.active.set i true) m.measUsed (hs.setH m.handles.length start)
       (ts.setReg (R i) start) :=
-    hrel.bind hH (htmp.not_prot) (prot_set_self s1.1) (fun x hx => hx.mono (Sub.set _ _)) start
+    hrel.bind hH (htmp.not_prot) (prot_set_self s1.1) (fun x hx => hx.mono (Sub.set _ _)) start (fun _ h => h) (by intro hb; simp [R] at hb)
   have r0 : Runs p n 1 ts (ts.setReg (R i) start) := runs_instr Lp.h0 (by simp [exec])
   have r1 : Runs p (n + 1) 1 (ts.setReg (R i) start) (ts.setReg (R i) start) := runs_label _ Lp.h1
   -- iterations
@@ -115,7 +115,7 @@ theorem loopShape_sim {m m1 m2 m4 : Mem} {i : Nat} {b : Bool} {body : Host} {bc 
     unfold loopCode at hpl
     have := hpl.left.right
     simpa using this
-  obtain ⟨ts', hst, hrel'⟩ := loop_sim Lp (fun a b => Rel H L (m.active.set i true) m.measUsed a b)
+  obtain ⟨ts', hst, hrel'⟩ := loop_sim Lp (fun a b => Rel H L MH (m.active.set i true) m.measUsed a b)
     m.handles.length (hsem f (m.handles.length + 1) m.arrLens.length body)
     (fun a b v hr hv => (hr.reg_val hv hH).1)
     (fun a b a1 hr hb => ih p (n + 3) a a1 b hbodyPl hr hb)
@@ -144,21 +144,21 @@ theorem breakCmds_shape {m m' : Mem} {ef : Val} {ev : Int} {lx : Lbl} {cs : List
 /-- **emit_sim** -/
 theorem emit_sim : ∀ (op : Host) (fuel : Nat) (m m' : Mem) (cs : List PCmd), BodyOK op →
     emit m op = .ok (m', cs) →
-    ∀ (H : List (Reg × Bool)) (L : List Nat) (p : List PCmd) (n : Nat) (hs hs' : HSt) (ts : St),
+    ∀ (H : List (Reg × Bool)) (L MH : List Nat) (p : List PCmd) (n : Nat) (hs hs' : HSt) (ts : St),
     Ext m'.handles H → ExtL m'.arrLens L → Placed p n cs →
-    Rel H L m.active m.measUsed hs ts →
+    Rel H L MH m.active m.measUsed hs ts →
     hsem fuel m.handles.length m.arrLens.length op hs = some hs' →
-    ∃ ts', Runs p n cs.length ts ts' ∧ Rel H L m.active m.measUsed hs' ts' := by
+    ∃ ts', Runs p n cs.length ts ts' ∧ Rel H L MH m.active m.measUsed hs' ts' := by
   intro op
   induction op with
   | skip =>
-    intro fuel m m' cs _ h H L p n hs hs' ts _ _ _ hrel hh
+    intro fuel m m' cs _ h H L MH p n hs hs' ts _ _ _ hrel hh
     simp [emit] at h; obtain ⟨rfl, rfl⟩ := h
     cases fuel with
     | zero => simp [hsem] at hh
     | succ f => simp [hsem] at hh; subst hh; exact ⟨ts, Runs.refl _ _ _, hrel⟩
   | seq a b iha ihb =>
-    intro fuel m m' cs hb h H L p n hs hs' ts hext hextL hpl hrel hh
+    intro fuel m m' cs hb h H L MH p n hs hs' ts hext hextL hpl hrel hh
     simp only [emit] at h
     split at h
     · cases h
@@ -181,19 +181,19 @@ theorem emit_sim : ∀ (op : Host) (fuel : Nat) (m m' : Mem) (cs : List PCmd), B
             obtain ⟨u2, hu2, _⟩ := sb.lens
             have a1 := emit_active a _ _ _ hb.1.completed h1
             have mu1 := (sa.body hb.1).1
-            obtain ⟨ts1, hr1, hrel1⟩ := iha f m m1 ca hb.1 h1 H L p n hs hs1 ts
+            obtain ⟨ts1, hr1, hrel1⟩ := iha f m m1 ca hb.1 h1 H L MH p n hs hs1 ts
               (by rw [ht2] at hext; exact hext.of_append) (by rw [hu2] at hextL; exact hextL.of_append)
               hpl.left hrel hh1
             have e1 : m.handles.length + hCount a = m1.handles.length := by rw [ht]; simp [htl]
             have e2 : m.arrLens.length + aCount a = m1.arrLens.length := by rw [hu]; simp [hul]
             rw [e1, e2] at hh
-            obtain ⟨ts2, hr2, hrel2⟩ := ihb f m1 m' cb hb.2 h2 H L p (n + ca.length) hs1 hs' ts1
+            obtain ⟨ts2, hr2, hrel2⟩ := ihb f m1 m' cb hb.2 h2 H L MH p (n + ca.length) hs1 hs' ts1
               hext hextL hpl.right (by rw [a1, mu1]; exact hrel1) hh
             refine ⟨ts2, ?_, by rw [a1, mu1] at hrel2; exact hrel2⟩
             exact runs_cast (runs_seq hr1 hr2) (by simp)
           · cases hh
   | newArray len init =>
-    intro fuel m m' cs _ h H L p n hs hs' ts _ _ _ hrel hh
+    intro fuel m m' cs _ h H L MH p n hs hs' ts _ _ _ hrel hh
     have hcs : cs = [] := by
       simp only [emit] at h
       split at h <;> (split at h; cases h; cases h; rfl)
@@ -203,7 +203,7 @@ theorem emit_sim : ∀ (op : Host) (fuel : Nat) (m m' : Mem) (cs : List PCmd), B
     | succ f => simp [hsem] at hh; subst hh; exact ⟨ts, Runs.refl _ _ _, hrel⟩
   | newReg v => intro fuel m m' cs hb; exact hb.elim
   | qop g t =>
-    intro fuel m m' cs hb h H L p n hs hs' ts hext hextL hpl hrel hh
+    intro fuel m m' cs hb h H L MH p n hs hs' ts hext hextL hpl hrel hh
     simp only [emit] at h
     have st := emitQop_stat h
     obtain ⟨tt, htt, _⟩ := st.handles
@@ -226,7 +226,7 @@ theorem emit_sim : ∀ (op : Host) (fuel : Nat) (m m' : Mem) (cs : List PCmd), B
         · cases hh
       | newReg => exact absurd rfl hb
   | addF fu o md =>
-    intro fuel m m' cs _ h H L p n hs hs' ts hext _ hpl hrel hh
+    intro fuel m m' cs _ h H L MH p n hs hs' ts hext _ hpl hrel hh
     simp only [emit] at h
     have hext' : Ext m.handles H := by rw [(emitAddF_same h).handles] at hext; exact hext
     cases fuel with
@@ -244,7 +244,7 @@ theorem emit_sim : ∀ (op : Host) (fuel : Nat) (m m' : Mem) (cs : List PCmd), B
           · cases hh
         · cases hh
   | addR hnd o md =>
-    intro fuel m m' cs _ h H L p n hs hs' ts hext _ hpl hrel hh
+    intro fuel m m' cs _ h H L MH p n hs hs' ts hext _ hpl hrel hh
     simp only [emit] at h
     have hext' : Ext m.handles H := by rw [(emitAddR_same h).handles] at hext; exact hext
     cases fuel with
@@ -260,7 +260,7 @@ theorem emit_sim : ∀ (op : Host) (fuel : Nat) (m m' : Mem) (cs : List PCmd), B
         · cases hh
       · cases hh
   | ifc cb c a b body ih =>
-    intro fuel m m' cs hb h H L p n hs hs' ts hext hextL hpl hrel hh
+    intro fuel m m' cs hb h H L MH p n hs hs' ts hext hextL hpl hrel hh
     simp only [emit] at h
     split at h
     · cases h
@@ -304,12 +304,12 @@ theorem emit_sim : ∀ (op : Host) (fuel : Nat) (m m' : Mem) (cs : List PCmd), B
               rwa [show n + (st ++ bc).length = n + st.length + bc.length by simp; omega] at this
             -- the body, whenever it runs
             have runBody : ∀ ts1, TmpEq m.active ts ts1 → hsem f m.handles.length m.arrLens.length body hs = some hs' →
-                ∃ ts', Runs p (n + st.length) bc.length ts1 ts' ∧ Rel H L m.active m.measUsed hs' ts' := by
+                ∃ ts', Runs p (n + st.length) bc.length ts1 ts' ∧ Rel H L MH m.active m.measUsed hs' ts' := by
               intro ts1 hte hhb
-              exact ih f m m1 bc hb h1 H L p (n + st.length) hs hs' ts1 hextB hextLB hplB (hrel.tmp hte) hhb
+              exact ih f m m1 bc hb h1 H L MH p (n + st.length) hs hs' ts1 hextB hextLB hplB (hrel.tmp hte) hhb
             have finish : ∀ (va vb : Int), evalVal hs a = some va → (c.unary = false → evalVal hs b = some vb) →
                 (if condB c va vb then hsem f m.handles.length m.arrLens.length body hs else some hs) = some hs' →
-                ∃ ts', Runs p n (st ++ bc ++ [PCmd.label l]).length ts ts' ∧ Rel H L m.active m.measUsed hs' ts' := by
+                ∃ ts', Runs p n (st ++ bc ++ [PCmd.label l]).length ts ts' ∧ Rel H L MH m.active m.measUsed hs' ts' := by
               intro va vb hva hvb hres
               obtain ⟨ts1, hte, hst⟩ := branch_sim hbr hextB hrel (by rw [a1]; exact Sub.refl _)
                 (by rw [a1]) hplSt hlab hva hvb
@@ -346,7 +346,7 @@ theorem emit_sim : ∀ (op : Host) (fuel : Nat) (m m' : Mem) (cs : List PCmd), B
                 · rename_i vb hvb
                   exact finish va vb hva (fun _ => hvb) hh
   | loop start stop stp body ih =>
-    intro fuel m m' cs hb h H L p n hs hs' ts hext hextL hpl hrel hh
+    intro fuel m m' cs hb h H L MH p n hs hs' ts hext hextL hpl hrel hh
     simp only [emit] at h
     split at h
     · cases h
@@ -385,16 +385,16 @@ theorem emit_sim : ∀ (op : Host) (fuel : Nat) (m m' : Mem) (cs : List PCmd), B
                   rw [(release_same h4).lens, (buildLoop_sameL _ _ _ _ _ _).lens] at hextL; exact hextL
                 refine loopShape_sim h1 h2 h4 hem' hext ?_ hpl hrel hit
                 intro p' n' a a1 b' hpl' hr' hb'
-                have := ih f (bindHandle m1 (R i) false) m2 bc hb h2 H L p' n' a a1 b' hextB hextLB hpl'
-                  (by show Rel H L m1.active m1.measUsed a b'; rw [s1.2.1, sm1.meas]; exact hr')
+                have := ih f (bindHandle m1 (R i) false) m2 bc hb h2 H L MH p' n' a a1 b' hextB hextLB hpl'
+                  (by show Rel H L MH m1.active m1.measUsed a b'; rw [s1.2.1, sm1.meas]; exact hr')
                   (by show hsem f (m1.handles ++ [(R i, false)]).length m1.arrLens.length body a = some a1
                       rw [sm1.handles, sm1.lens]; simpa using hb')
                 obtain ⟨t1, hr1, hrel1⟩ := this
                 exact ⟨t1, hr1, by
-                  have : Rel H L m1.active m1.measUsed a1 t1 := hrel1
+                  have : Rel H L MH m1.active m1.measUsed a1 t1 := hrel1
                   rwa [s1.2.1, sm1.meas] at this⟩
   | loopBody start stop stp body ih =>
-    intro fuel m m' cs hb h H L p n hs hs' ts hext hextL hpl hrel hh
+    intro fuel m m' cs hb h H L MH p n hs hs' ts hext hextL hpl hrel hh
     simp only [emit] at h
     split at h
     · cases h
@@ -433,16 +433,16 @@ theorem emit_sim : ∀ (op : Host) (fuel : Nat) (m m' : Mem) (cs : List PCmd), B
                   rw [(release_same h4).lens, (buildLoop_sameL _ _ _ _ _ _).lens] at hextL; exact hextL
                 refine loopShape_sim h1 h2 h4 hem' hext ?_ hpl hrel hit
                 intro p' n' a a1 b' hpl' hr' hb'
-                have := ih f (bindHandle m1 (R i) true) m2 bc hb h2 H L p' n' a a1 b' hextB hextLB hpl'
-                  (by show Rel H L m1.active m1.measUsed a b'; rw [s1.2.1, sm1.meas]; exact hr')
+                have := ih f (bindHandle m1 (R i) true) m2 bc hb h2 H L MH p' n' a a1 b' hextB hextLB hpl'
+                  (by show Rel H L MH m1.active m1.measUsed a b'; rw [s1.2.1, sm1.meas]; exact hr')
                   (by show hsem f (m1.handles ++ [(R i, true)]).length m1.arrLens.length body a = some a1
                       rw [sm1.handles, sm1.lens]; simpa using hb')
                 obtain ⟨t1, hr1, hrel1⟩ := this
                 exact ⟨t1, hr1, by
-                  have : Rel H L m1.active m1.measUsed a1 t1 := hrel1
+                  have : Rel H L MH m1.active m1.measUsed a1 t1 := hrel1
                   rwa [s1.2.1, sm1.meas] at this⟩
   | foreach arr wi body ih =>
-    intro fuel m m' cs hb h H L p n hs hs' ts hext hextL hpl hrel hh
+    intro fuel m m' cs hb h H L MH p n hs hs' ts hext hextL hpl hrel hh
     simp only [emit] at h
     split at h
     · cases h
@@ -503,16 +503,16 @@ theorem emit_sim : ∀ (op : Host) (fuel : Nat) (m m' : Mem) (cs : List PCmd), B
                       rw [(release_same h4).handles, (buildLoop_sameL _ _ _ _ _ _).handles] at hext; exact hext
                     refine loopShape_sim h1 h2 h4 hem' hext ?_ hpl hrel hit
                     intro p' n' a a1 b' hpl' hr' hb'
-                    have := ih f (bindHandle m1 (R i) false) m2 bc hb h2 H L p' n' a a1 b' hextB hextLB hpl'
-                      (by show Rel H L m1.active m1.measUsed a b'; rw [s1.2.1, sm1.meas]; exact hr')
+                    have := ih f (bindHandle m1 (R i) false) m2 bc hb h2 H L MH p' n' a a1 b' hextB hextLB hpl'
+                      (by show Rel H L MH m1.active m1.measUsed a b'; rw [s1.2.1, sm1.meas]; exact hr')
                       (by show hsem f (m1.handles ++ [(R i, false)]).length m1.arrLens.length body a = some a1
                           rw [sm1.handles, sm1.lens]; simpa using hb')
                     obtain ⟨t1, hr1, hrel1⟩ := this
                     exact ⟨t1, hr1, by
-                      have : Rel H L m1.active m1.measUsed a1 t1 := hrel1
+                      have : Rel H L MH m1.active m1.measUsed a1 t1 := hrel1
                       rwa [s1.2.1, sm1.meas] at this⟩
   | loopUntil N body ef ev cl ihb ihc =>
-    intro fuel m m' cs hb h H L p n hs hs' ts hext hextL hpl hrel hh
+    intro fuel m m' cs hb h H L MH p n hs hs' ts hext hextL hpl hrel hh
     simp only [emit] at h
     split at h
     · cases h
@@ -596,9 +596,9 @@ theorem emit_sim : ∀ (op : Host) (fuel : Nat) (m m' : Mem) (cs : List PCmd), B
                         (ld ++ [PCmd.instr .blt [o, .lit (ev + 1), .lab (newLabel (newLabel m2 3).1 4).2]])).length
                       = n + 4 + bc.length + ld.length by simp [loopUntilEntry]; omega] at this
                   -- entry
-                  have hrel0 : Rel H L (m.active.set i true) m.measUsed (hs.setH m.handles.length 0)
+                  have hrel0 : Rel H L MH (m.active.set i true) m.measUsed (hs.setH m.handles.length 0)
                       (ts.setReg (R i) 0) :=
-                    hrel.bind hH (htmp.not_prot) (prot_set_self s1.1) (fun x hx => hx.mono (Sub.set _ _)) 0
+                    hrel.bind hH (htmp.not_prot) (prot_set_self s1.1) (fun x hx => hx.mono (Sub.set _ _)) 0 (fun _ h => h) (by intro hb; simp [R] at hb)
                   have r0 : Runs p n 1 ts (ts.setReg (R i) 0) := runs_instr U.h0 (by simp [exec])
                   have r1 : Runs p (n + 1) 1 (ts.setReg (R i) 0) (ts.setReg (R i) 0) := runs_label _ U.h1
                   cases hit : iterUntil (hsem f (m.handles.length + 1) m.arrLens.length body)
@@ -610,19 +610,19 @@ theorem emit_sim : ∀ (op : Host) (fuel : Nat) (m m' : Mem) (cs : List PCmd), B
                     have e4a : (newLabel (newLabel m2 3).1 4).1.active = m.active.set i true := a2
                     have e4h : (newLabel (newLabel m2 3).1 4).1.handles = m2.handles := rfl
                     obtain ⟨ts', hst, hrel'⟩ := until_sim U
-                      (fun a b => Rel H L (m.active.set i true) m.measUsed a b) m.handles.length
+                      (fun a b => Rel H L MH (m.active.set i true) m.measUsed a b) m.handles.length
                       (hsem f (m.handles.length + 1) m.arrLens.length body)
                       (hsem f (m.handles.length + 1 + hCount body) (m.arrLens.length + aCount body) cl) ef
                       (fun a b v hr hv => (hr.reg_val hv hH).1)
                       (by
                         intro a b a1 hr hb'
-                        have := ihb f (bindHandle m1 (R i) true) m2 bc hb.1 h2 H L p (n + 3) a a1 b hext2 hextL2 plB
-                          (by show Rel H L m1.active m1.measUsed a b; rw [s1.2.1, sm1.meas]; exact hr)
+                        have := ihb f (bindHandle m1 (R i) true) m2 bc hb.1 h2 H L MH p (n + 3) a a1 b hext2 hextL2 plB
+                          (by show Rel H L MH m1.active m1.measUsed a b; rw [s1.2.1, sm1.meas]; exact hr)
                           (by show hsem f (m1.handles ++ [(R i, true)]).length m1.arrLens.length body a = some a1
                               rw [sm1.handles, sm1.lens]; simpa using hb')
                         obtain ⟨t1, hr1, hrel1⟩ := this
                         exact ⟨t1, hr1, by
-                          have : Rel H L m1.active m1.measUsed a1 t1 := hrel1
+                          have : Rel H L MH m1.active m1.measUsed a1 t1 := hrel1
                           rwa [s1.2.1, sm1.meas] at this⟩)
                       (by
                         intro a b v hr hv
@@ -632,7 +632,7 @@ theorem emit_sim : ∀ (op : Host) (fuel : Nat) (m m' : Mem) (cs : List PCmd), B
                         exact ⟨ts1, hrun, hr.tmp hte, hop ts1 (TmpEq.refl _ _)⟩)
                       (by
                         intro a b a1 hr hc
-                        have := ihc f m5 m6 clc hb.2 h6 H L p (n + 4 + bc.length + ld.length) a a1 b hext6 hextL6 plC
+                        have := ihc f m5 m6 clc hb.2 h6 H L MH p (n + 4 + bc.length + ld.length) a a1 b hext6 hextL6 plC
                           (by rw [a5, mu5]; exact hr)
                           (by
                             have e1 : m5.handles.length = m.handles.length + 1 + hCount body := by
@@ -659,13 +659,13 @@ theorem emit_sim : ∀ (op : Host) (fuel : Nat) (m m' : Mem) (cs : List PCmd), B
                         simp [loopUntilEntry, loopUntilExit]; omega]
                     exact Steps.trans r01 hst
   | tryUntil k body ih =>
-    intro fuel m m' cs hb h H L p n hs hs' ts hext hextL hpl hrel hh
+    intro fuel m m' cs hb h H L MH p n hs hs' ts hext hextL hpl hrel hh
     simp only [emit] at h
     cases fuel with
     | zero => simp [hsem] at hh
     | succ f =>
       simp only [hsem] at hh
-      obtain ⟨ts', hr, hrel'⟩ := ih f m m' cs hb h H L p n hs hs' ts hext hextL hpl hrel hh
+      obtain ⟨ts', hr, hrel'⟩ := ih f m m' cs hb h H L MH p n hs hs' ts hext hextL hpl hrel hh
       exact ⟨ts', hr, hrel'⟩
 
 
